@@ -17,7 +17,9 @@ LEVEL_TEXT = (
     "reject'; whatever is returned must be the exact normal form; normalising the result again changes nothing); the "
     "configuration constructors are driven with a valid base per task and single / double edits (delete key, add unknown key, "
     "corrupt type, add the other range kind) and judged against the documented rejection rules, and every accepted "
-    "configuration must expose per-label lists of the right length with scalar entries."
+    "configuration must expose per-label lists of the right length with scalar entries. One specification object / one "
+    "configuration dictionary is also used repeatedly with other label counts and every outcome is compared with a second "
+    "execution on a fresh copy of the value as it was given."
 )
 LEVEL_NOTE = "Only documented rules decide accept/reject; other corruptions are don't-care for acceptance but an accepted configuration must still expose well-formed per-label lists. Known finding: unknown metric parameters are silently ignored (the pinned tests rely on it)."
 TECHNIQUE = "runtime monitoring: taps on set_thresholds/check_*thresholds and the config constructors + shape-grammar oracle; exhaustive enumeration of threshold shapes up to a bound; single/double-edit config mutation"
@@ -25,11 +27,12 @@ RULE = (
     "thresholds: every spec built from a base shape (scalar; flat list len 0..n+1; nested list of inner lengths 0..n+1) with "
     "at most one deviant element drawn from {int, float, str, None, inner lists with one bad entry, too-deep list} for n in "
     "{1,2,3}, nest on/off (complete enumeration), plus random two-deviant specs; configs: 7 perception tasks + sensing x "
-    "{valid base, every single edit, sampled double edits}; non-trivial = spec that is a list (not a bare scalar) / edited "
+    "{valid base, every single edit, sampled double edits}; reuse histories: one spec object normalised 2-4 times with "
+    "label counts 1..4, one evaluation_config_dict used for 2-3 evaluator configs with other label lists; non-trivial = spec that is a list (not a bare scalar) / edited "
     "config; distinct = (n, nest, shape class, verdict) resp. (task, edit kinds, verdict)"
 )
 ASSUMPTIONS = ["bool is not generated as a threshold entry", "a flat list whose length equals the number of labels may be read per label or per threshold (both normal forms accepted)"]
-DECIDING = ["set_thresholds.checked", "C15.threshold_specs", "C15.threshold_rejected", "C15.threshold_accepted", "C15.idempotence_checked", "C15.configs_accepted", "C15.configs_rejected", "C15.must_reject_checked", "C15.exposed_lists_checked"]
+DECIDING = ["set_thresholds.checked", "C15.threshold_specs", "C15.threshold_rejected", "C15.threshold_accepted", "C15.idempotence_checked", "C15.configs_accepted", "C15.configs_rejected", "C15.must_reject_checked", "C15.exposed_lists_checked", "C15.reuse_checked"]
 JOBS = {"quick": 2, "thorough": 8}
 
 
@@ -434,9 +437,96 @@ def drive_configs(ctx: Ctx) -> None:
             pass
 
 
+def outcome_thr(spec: Any, n: int, nest: bool) -> Tuple[str, Any]:
+    try:
+        return "accepted", th.set_thresholds(spec, n, nest)
+    except Exception as e:  # noqa: BLE001
+        return "rejected", type(e).__name__
+
+
+def drive_reuse(ctx: Ctx) -> None:
+    """One specification object used several times (a configuration dictionary is typically built once and reused for
+    several evaluators with other label lists): what a call returns may depend on the specification as it was given,
+    never on earlier normalisations of the same object. Second execution on a fresh copy of the pristine value."""
+    for i in ctx.indices("thresholds_reuse", 300 if ctx.quick else 20000):
+        r = ctx.rng("thresholds_reuse", i)
+        kind = r.choice(["nested_singletons", "nested_mixed", "flat", "scalar", "nested_full"])
+        n0 = r.randint(1, 4)
+        rows = r.randint(1, 3)
+        if kind == "nested_singletons":
+            spec: Any = [[round(r.uniform(0.1, 5), 2)] for _ in range(rows)]
+        elif kind == "nested_mixed":
+            spec = [[round(r.uniform(0.1, 5), 2)] * (1 if r.random() < 0.5 else n0) for _ in range(rows)]
+        elif kind == "nested_full":
+            spec = [[round(r.uniform(0.1, 5), 2)] * n0 for _ in range(rows)]
+        elif kind == "flat":
+            spec = [round(r.uniform(0.1, 5), 2) for _ in range(r.choice([1, n0]))]
+        else:
+            spec = round(r.uniform(0.1, 5), 2)
+        pristine = copy.deepcopy(spec)
+        history = [(r.choice([n0, n0, r.randint(1, 4)]), r.random() < 0.7) for _ in range(r.randint(2, 4))]
+        ctx.begin_case("thresholds_reuse", i, kind=kind, spec=jsonable(pristine), history=history)
+        for step, (n, nest) in enumerate(history):
+            got = outcome_thr(spec, n, nest)
+            want = outcome_thr(copy.deepcopy(pristine), n, nest)
+            ctx.count("C15.reuse_checked")
+            ctx.check(
+                got == want,
+                "C15/normalisation_depends_on_earlier_use_of_the_same_specification",
+                dict(kind=kind, spec_as_given=jsonable(pristine), spec_now=jsonable(spec), history=history[: step + 1], got=jsonable(got), fresh_copy=jsonable(want)),
+                "set_thresholds",
+            )
+        ctx.case(("reuse", kind, len({h[0] for h in history}) > 1), nontrivial=len({h[0] for h in history}) > 1)
+    # the same evaluation_config_dict for several evaluator configurations with other label lists
+    from perception_eval.config import PerceptionEvaluationConfig
+
+    from ..frames import scratch_dir
+
+    pool = ["car", "bicycle", "pedestrian", "truck", "bus", "motorbike"]
+    for i in ctx.indices("config_reuse", 60 if ctx.quick else 3000):
+        r = ctx.rng("config_reuse", i)
+        task = r.choice(["detection", "tracking", "detection2d"])
+        cfg, frame = base_config(task)
+        for k in ("center_distance_thresholds", "plane_distance_thresholds", "iou_2d_thresholds", "iou_3d_thresholds"):
+            if k in cfg:
+                cfg[k] = r.choice([[[1.0], [2.0]], [1.0, 2.0], 1.5, [[0.5]], [[1.0], [2.0], [3.0]]])
+        if "min_point_numbers" in cfg:
+            cfg["min_point_numbers"] = 0 if r.random() < 0.5 else [0]
+        ctx.begin_case("config_reuse", i, task=task, cfg=jsonable(cfg))
+        outcomes = []
+        for step in range(r.randint(2, 3)):
+            cfg["target_labels"] = r.sample(pool, r.randint(1, 4))
+            res = []
+            for c in (cfg, copy.deepcopy(cfg_pristine(cfg, outcomes))):
+                try:
+                    conf = PerceptionEvaluationConfig(dataset_paths=[], frame_id=frame, result_root_directory=scratch_dir(), evaluation_config_dict=c)
+                    mp = conf.metrics_params
+                    res.append(("accepted", jsonable({k: mp.get(k) for k in METRIC_KEYS if k in mp})))
+                except Exception as e:  # noqa: BLE001
+                    res.append(("rejected", type(e).__name__))
+            outcomes.append((list(cfg["target_labels"]), res))
+            ctx.count("C15.reuse_checked")
+            ctx.check(res[0] == res[1], "C15/normalisation_depends_on_earlier_use_of_the_same_specification", dict(level="evaluation_config_dict", task=task, step=step, labels=cfg["target_labels"], reused=res[0], fresh=res[1]), "config")
+        ctx.case(("config_reuse", task), nontrivial=True)
+
+
+_PRISTINE: Dict[int, Any] = {}
+
+
+def cfg_pristine(cfg: Dict[str, Any], outcomes: List[Any]) -> Dict[str, Any]:
+    """The dictionary as the user wrote it (taken before its first use) with the current target labels."""
+    key = id(cfg)
+    if not outcomes:
+        _PRISTINE[key] = copy.deepcopy(cfg)
+    out = copy.deepcopy(_PRISTINE[key])
+    out["target_labels"] = list(cfg["target_labels"])
+    return out
+
+
 def run(ctx: Ctx) -> None:
     with Taps(ctx) as taps:
         install(taps, ctx)
         drive_thresholds(ctx)
+        drive_reuse(ctx)
         drive_configs(ctx)
         ctx.notes["taps"] = taps.installed
